@@ -135,9 +135,17 @@ impl<'result> CustomTypeParser<'result> {
         self.accept_in_place("(")
             .map_err(|_| CustomTypeParseError::UnexpectedCharacter(self.get_first_char(), '('))?;
 
-        Ok(Either::Right(std::iter::from_fn(|| {
+        // An error does not necessarily consume input (e.g. at the end of input),
+        // so the iterator must end after the first error it yields. Otherwise it would
+        // yield the same error forever and consumers that exhaust it would never return.
+        let mut failed = false;
+        Ok(Either::Right(std::iter::from_fn(move || {
+            if failed {
+                return None;
+            }
             self.skip_blank_and_comma();
             if self.parser.is_at_eof() {
+                failed = true;
                 return Some(Err(CustomTypeParseError::UnexpectedEndOfInput));
             }
             let result = self.parser.accept(")");
@@ -146,7 +154,11 @@ impl<'result> CustomTypeParser<'result> {
                     self.parser = parser;
                     None
                 }
-                Err(_) => Some(self.do_parse()),
+                Err(_) => {
+                    let parsed = self.do_parse();
+                    failed = parsed.is_err();
+                    Some(parsed)
+                }
             }
         })))
     }
